@@ -90,6 +90,16 @@ func (t *AppendOnlyTree) AddLeaf(tx dbtypes.Txer, blockNum, blockPosition uint64
 	return nil
 }
 
+// Reorg deletes all the data relevant from firstReorgedBlock (includded) and onwards.
+// The cached frontier (lastIndex / lastLeftCache) may describe leaves that this call removes,
+// so it is invalidated: the next AddLeaf rebuilds it from the DB and a leaf that does not follow
+// the last remaining one is rejected with ErrInvalidIndex instead of being appended on top of
+// the removed leaves.
+func (t *AppendOnlyTree) Reorg(tx dbtypes.Txer, firstReorgedBlock uint64) error {
+	t.lastIndex = -2
+	return t.Tree.Reorg(tx, firstReorgedBlock)
+}
+
 func (t *AppendOnlyTree) initCache(tx dbtypes.Txer) error {
 	siblings := [types.DefaultHeight]common.Hash{}
 	lastRoot, err := t.getLastRootWithTx(tx)
